@@ -28,6 +28,7 @@ class FnContract:
         self.entry, self.tail = [], []
         self.loops, self.closures = {}, {}
         self.after = {}
+        self.before = {}
         self.after_used = set()
         self.attrs = []
         self.external_body = False
@@ -134,6 +135,8 @@ def parse_contracts(paths):
                     sink = cur_fn.tail
                 elif d == "after":
                     sink = cur_fn.after.setdefault(arg if "#" in arg else arg + "#1", [])
+                elif d == "before":
+                    sink = cur_fn.before.setdefault(arg if "#" in arg else arg + "#1", [])
                 elif d == "attr":
                     cur_fn.attrs.append(arg)
                     sink = None
@@ -341,7 +344,8 @@ def assemble(unit_cfg, src="/repo/src"):
                     lc_.used = True
                 for cc_ in fc.closures.values():
                     cc_.used = True
-                fc.after_used.update(fc.after.keys())
+                fc.after_used.update("AFTER" + k_ for k_ in fc.after.keys())
+                fc.after_used.update("BEFORE" + k_ for k_ in fc.before.keys())
             if len(tag) == 2:
                 what = tag[1]
                 if what == "ATTR":
@@ -395,9 +399,10 @@ def assemble(unit_cfg, src="/repo/src"):
                 continue
             if sub.startswith("S"):
                 si = fi["stmts"][int(sub[1:])]
-                if fc is not None and si["key"] in fc.after:
-                    fc.after_used.add(si["key"])
-                    out.add("\n" + "\n".join(fc.after[si["key"]]) + "\n")
+                tbl = (fc.after if what == "AFTER" else fc.before) if fc is not None else {}
+                if si["key"] in tbl:
+                    fc.after_used.add(what + si["key"])
+                    out.add("\n" + "\n".join(tbl[si["key"]]) + "\n")
             elif sub.startswith("L"):
                 li = fi["loops"][int(sub[1:])]
                 lc = fc.loops.get(li["key"]) if fc is not None else None
@@ -506,8 +511,11 @@ def assemble(unit_cfg, src="/repo/src"):
             if not cc.used:
                 raise LostAnchor("closure contract %s of fn %s matches no closure" % (ck, k))
         for ak in fc.after:
-            if ak not in fc.after_used:
+            if "AFTER" + ak not in fc.after_used:
                 raise LostAnchor("statement anchor %s of fn %s matches no let statement" % (ak, k))
+        for ak in fc.before:
+            if "BEFORE" + ak not in fc.after_used:
+                raise LostAnchor("statement anchor (before) %s of fn %s matches no let statement" % (ak, k))
 
     for r in raws:
         out.add("// ---- raw %s (%s)\n" % (r["name"], r["src"]))
